@@ -20,6 +20,7 @@ package main
 // user / pass tokens: `~` = empty, `hex:<hex>` = arbitrary bytes.
 
 import (
+	"sync/atomic"
 	"context"
 	"crypto/md5"
 	"crypto/sha256"
@@ -208,6 +209,7 @@ func authOption(d *brokerDrv, m map[string]string) []server.Options {
 		return nil
 	}
 	e.cur = cur
+	cur.VerifSetSaveFail(false) // installs the "saved under a.mu" check on the real save
 	authState = e
 	return []server.Options{server.WithPlugin(&authShim{env: e})}
 }
@@ -470,6 +472,10 @@ func acctOp(d *brokerDrv, pos []string, m map[string]string) string {
 			return "err:fs"
 		}
 		res = "ok"
+	}
+	if n := atomic.SwapInt64(&auth.VerifSaveUnlocked, 0); n > 0 {
+		// the password file was written outside the critical section that changed the index
+		res += " UNLOCKED-SAVE"
 	}
 	return res + " " + d.collect("")
 }
